@@ -33,6 +33,8 @@ import (
 	kubegateway "istio.io/istio/pilot/pkg/config/kube/gateway"
 	"istio.io/istio/pilot/pkg/model"
 	istioroute "istio.io/istio/pilot/pkg/networking/core/route"
+	kubecontroller "istio.io/istio/pilot/pkg/serviceregistry/kube/controller"
+	"istio.io/istio/pilot/pkg/serviceregistry/provider"
 	pxds "istio.io/istio/pilot/pkg/xds"
 	"istio.io/istio/pilot/pkg/xds/endpoints"
 	v3 "istio.io/istio/pilot/pkg/xds/v3"
@@ -43,8 +45,6 @@ import (
 	"istio.io/istio/pkg/config/protocol"
 	"istio.io/istio/pkg/config/schema/gvk"
 	"istio.io/istio/pkg/config/visibility"
-	kubecontroller "istio.io/istio/pilot/pkg/serviceregistry/kube/controller"
-	"istio.io/istio/pilot/pkg/serviceregistry/provider"
 	"istio.io/istio/pkg/jwt"
 	"istio.io/istio/pkg/util/sets"
 	"istio.io/istio/pkg/workloadapi"
@@ -759,7 +759,7 @@ func oracleOp(c *cmpSUT, r *wire.Rng, f []string) string {
 		return f[0] + ":crash"
 	}
 	switch f[0] {
-	case "sidx", "ef", "te":
+	case "sidx", "ef", "te", "drm":
 		for k := 0; k < 6; k++ {
 			g := append([]string{f[0], permuteTok(r, f[1])}, f[2:]...)
 			if got := c.apply(g); got != base {
